@@ -155,7 +155,7 @@ theorem listed_progress (hL : LInv s) (hV : LiveInv s) (hc : rCall s.cpc = true)
       intro hg; rw [hr] at hg; cases hg
   · by_cases h2 : w.pc = .exited
     · rcases hV.rp.exitedL w hw h2 hin with he | ⟨hf, hp⟩
-      · cases hcp : s.cpc <;> simp [hcp, rCall, exitPc] at hc he
+      · cases hcp : s.cpc <;> simp [hcp, rCall, exitPhasePc] at hc he
       · refine ⟨.r, repl_progress hL hV (hV.rp.rLive hf hc) ?_⟩
         intro hg hq
         unfold pending at hp
